@@ -1212,6 +1212,12 @@ def exhaustive_loop(P, fn_qual, allow_exits=0):
         if len(loop) < 2:
             continue
         r.site('%s loop @%s (%d blocks)' % (fn['qual'], body.ln(h), len(loop)))
+        # an adaptor that ends the iteration at an element (`take_while`, `map_while`, `take`, `scan`) is an early exit in disguise
+        it = Origins(body).arg_str(body.term(h), 0)
+        m = re.search(r'Iterator::(take_while|map_while|take|scan|step_by)\(', it)
+        if m:
+            r.bad('truncating-adaptor', 'in `%s` the loop at %s iterates over `%s(..)`: the iteration ends at the first element the adaptor stops at, '
+                  'the remaining elements are not processed (a `continue` became a `break`)' % (fn['qual'], body.ln(h), m.group(1)), where=[body.ln(h)])
         # the block that switches on the discriminant of next()'s result
         nxt_local = body.term(h)['dest']['l']
         none_exits = set()
